@@ -21,8 +21,12 @@ import z3
 VERIF = os.path.dirname(os.path.dirname(os.path.abspath(__file__)))
 REPO = os.environ.get('VERIF_REPO', '/repo')
 VENV_PY = '/venv/bin/python'
+# runs against a deliberately changed tree (tools/seedtest.py) write their evidence elsewhere so that the committed
+# evidence always describes the unchanged tree
+EVIDENCE_DIR = os.environ.get('VERIF_EVIDENCE_DIR') or os.path.join(VERIF, 'evidence')
 Z3_TIMEOUT_MS = int(os.environ.get('VERIF_Z3_TIMEOUT_MS', '20000'))
-CVC5_TIMEOUT_S = int(os.environ.get('VERIF_CVC5_TIMEOUT_S', '30'))
+CVC5_TIMEOUT_S = int(os.environ.get('VERIF_CVC5_TIMEOUT_S', '120'))
+RETRY_SEEDS = (0, 7, 13)
 
 
 class Undecided(Exception):
@@ -86,18 +90,47 @@ def _solve_worker(job):
     idx, smt2, expect, z3_ms, cvc5_s, use_cvc5_first = job
     t0 = time.time()
     out = {'idx': idx, 'res': 'unknown', 'backend': '', 'detail': ''}
+    if use_cvc5_first and cvc5_s > 0:
+        # obligations the contract marks as known to be out of z3's reach within its budget (32-bit multiplications):
+        # ask cvc5 first instead of spending z3's whole budget before every answer
+        r2, d2 = run_cvc5(smt2, cvc5_s)
+        if r2 in ('sat', 'unsat'):
+            out.update(res=r2, backend='cvc5-cli', seconds=time.time() - t0)
+            return out
+        out['detail'] = 'cvc5: ' + d2 + ' | '
+        cvc5_s = 0
+    z3_timed_out = False
     try:
         s = z3.Solver()
         s.set('timeout', z3_ms if expect == 'unsat' else min(z3_ms, 5000))
         s.from_string(smt2)
         r = s.check()
         out['backend'] = 'z3-' + z3.get_version_string()
+        if r == z3.unknown and expect == 'unsat':
+            # The pool worker's default z3 context is shared by every obligation the worker has solved before, and
+            # that history changes term ids and with them the order of quantifier instantiation: measured on the C30
+            # paging VCs, about 1 solve in 10^4 comes back `unknown (incomplete quantifiers)` in a shared context and
+            # 0 of 5*10^4 in a fresh one.  An `unknown` is therefore re-solved in fresh contexts (the verdict is then a
+            # function of the SMT-LIB text alone) before it counts as undecided.  A retry can only replace `unknown` by
+            # a definite answer of the same solver on the same text; timeouts are not retried (cvc5 takes those).
+            first_reason = s.reason_unknown()
+            for attempt, rs in enumerate(() if re.search('timeout|canceled', first_reason) else RETRY_SEEDS):
+                c2 = z3.Context()
+                s = z3.Solver(ctx=c2)
+                s.set('timeout', z3_ms)
+                s.set('random_seed', rs)
+                s.from_string(smt2)
+                r = s.check()
+                if r != z3.unknown:
+                    out['backend'] += ' (fresh context, retry %d after: %s)' % (attempt + 1, first_reason[:60])
+                    break
         if r == z3.sat:
             out['res'] = 'sat'
         elif r == z3.unsat:
             out['res'] = 'unsat'
         else:
-            out['detail'] = 'z3: ' + s.reason_unknown()
+            out['detail'] += 'z3: ' + s.reason_unknown()
+            z3_timed_out = bool(re.search('timeout|canceled', s.reason_unknown()))
             if expect == 'sat':
                 # satisfiability under quantified hypotheses is not decidable by the solver: re-check the
                 # quantifier-free part of the top-level conjunction (recorded in the backend string)
@@ -121,6 +154,25 @@ def _solve_worker(job):
             out['res'] = r2
             out['backend'] = 'cvc5-cli'
         out['detail'] += ' | cvc5: ' + d2
+    if out['res'] == 'unknown' and expect == 'unsat' and z3_timed_out:
+        # both budgets exhausted.  Solve times of quantified VCs are heavy-tailed and a loaded machine stretches them
+        # (C19 closed-elems#2: 0.6 s, 1.6 s, 7 s and one 20 s timeout across four runs of the same text), so restart in
+        # fresh contexts with other seeds, the last time with four times the budget: a verdict must not flip to undecided
+        # merely because all cores are busy
+        for attempt, (rs, mult) in enumerate(((7, 1), (13, 1), (0, 4))):
+            try:
+                s = z3.Solver(ctx=z3.Context())
+                s.set('timeout', mult * z3_ms)
+                s.set('random_seed', rs)
+                s.from_string(smt2)
+                r = s.check()
+            except Exception as e:
+                out['detail'] += ' | z3 restart exception: %r' % (e,)
+                break
+            if r != z3.unknown:
+                out['res'] = 'sat' if r == z3.sat else 'unsat'
+                out['backend'] = 'z3-%s (restart %d after timeout, seed %d, budget x%d)' % (z3.get_version_string(), attempt + 1, rs, mult)
+                break
     out['seconds'] = time.time() - t0
     return out
 
@@ -251,7 +303,7 @@ def discharge(obls: List[Obl], procs: int = 16, z3_ms: int = None, cvc5_s: int =
             o.status = 'unknown'
             o.detail = 'serialisation failed: %r' % (e,)
             continue
-        jobs.append((i, o.smt2, o.expect, z3_ms, cvc5_s, False))
+        jobs.append((i, o.smt2, o.expect, o.info.get('z3_ms', z3_ms), cvc5_s, bool(o.info.get('cvc5_first'))))
     if not jobs:
         return
     if len(jobs) <= 2 or procs <= 1:
@@ -523,8 +575,8 @@ def finish(ctx: Ctx, checker_cmd: str) -> int:
     for k, v in ctx.extra.items():
         if k not in ('cross_check', 'trusted_base') and not k.startswith('__'):
             ev['coverage'][k] = _jsonable(v)
-    os.makedirs(os.path.join(VERIF, 'evidence'), exist_ok=True)
-    with open(os.path.join(VERIF, 'evidence', pid + '.json'), 'w') as f:
+    os.makedirs(EVIDENCE_DIR, exist_ok=True)
+    with open(os.path.join(EVIDENCE_DIR, pid + '.json'), 'w') as f:
         json.dump(ev, f, indent=1, default=str)
     for l in lines:
         print(l)
